@@ -642,7 +642,7 @@ pub fn run_family_with(ctx: &Ctx, focus: Focus, rule: &str, between: &mut dyn Fn
             // the window between a producer's ring operations and the writer's pop is hit thousands of times
             for (cap, threads) in [(1usize, 1usize), (1, 3), (2, 2), (3, 1)] {
                 let p = StressPlan {
-                    cap, kind: rng.below(3) as u8, threads, per_thread: if ctx.tier_thorough { 60_000 } else { 15_000 },
+                    cap, kind: rng.below(3) as u8, threads, per_thread: if ctx.tier_thorough { 25_000 } else { 15_000 },
                     stall: false, flush_every: 0, interval_us: *rng.pick(&[1, 100, 5000]), val_every: 0, seed: rng.next(),
                 };
                 u.count("stress_tiny_ring_racing_writer");
